@@ -1050,7 +1050,13 @@ theorem cmd_disconnect_cease (cfg : Cfg) (s s' : St) (ok : Bool) (outs : List Ou
 /-- **Clause 2 for `Command::Disconnect(reason)` with the other reasons that carry a NOTIFICATION**
 (ConnectionRejected, Reconfiguration, Deconfigured: Cease 6/5, 6/6, 6/3; HoldTimerExpired: 4/0 - and the
 reasons the arms of `handle_event` use, which the command channel accepts too): in EVERY state the
-NOTIFICATION of the reason is sent, the connection is released and the FSM is left in Idle. -/
+NOTIFICATION of the reason is sent, the connection is released and the FSM is left in Idle.
+
+A SANITY LEMMA about the model, not independent evidence for clause 2: `tickStep .. (.cmdDisconnectWith (some r))`
+is by definition `execAct (.disconnect r)`, whose output is `Reason.notif r`, and the conclusion uses the same
+table.  WHICH code / subcode belongs to which reason (`Reason.notif`, `cmd_disconnect_admin_is_cease` = `rfl` on
+that table) is the model's transcription of session.rs:184-194, pinned by the `t .. cDr / cDc / cDd / cDh / cDo`
+correspondence lines; the oracle accepts any Cease subcode for a stop. -/
 theorem cmd_disconnect_with_notifies (cfg : Cfg) (s s' : St) (r : Reason) (ok : Bool) (outs : List Out)
     (h : tickStep cfg s (.cmdDisconnectWith (some r)) = .res (.next s' ok outs)) :
     s'.conn = false ∧ Out.pduNotification r.notif.1 r.notif.2 ∈ outs ∧ s'.state = .idle ∧ ok = true := by
@@ -1623,10 +1629,13 @@ structure Expiry where
   state : State
   deriving Repr
 
-/-- One step; `none`: the history ends (todo!/panic arm, no timer will tick, a `select!` tie, or a wait that
-would let a second hold-timer tick fall due un-polled - the C20 precondition for the hold timer). -/
+/-- One step; `none`: the history ends (todo!/panic arm, no timer will tick, a `select!` tie, or an input that
+resets the hold timer while two of its ticks are outstanding, `Rc.Fsm.staleInput` - the one place where the
+session leaves the C20 precondition in a way `Clock` cannot follow: the second tick survives the reset.  The
+driver and c08.rs refuse exactly these lines).  Any amount of time may pass un-polled (`wait`). -/
 def timedStep (cfg : Cfg) (x : Timed) : TStep → Option (Timed × List Expiry)
   | .input i =>
+    if staleInput cfg x.s x.c i then none else
     match handleInput cfg x.s i with
     | .next s' _ _ =>
       some ({ s := s', c := clockInput cfg x.s x.c i, heard := if hears x.s.state i then x.c.now else x.heard }, [])
@@ -1635,10 +1644,7 @@ def timedStep (cfg : Cfg) (x : Timed) : TStep → Option (Timed × List Expiry)
     match tickTimer cfg x.s x.c with
     | .fired e (.next s' _ _) c' => some ({ x with s := s', c := c' }, [⟨c'.now, e, x.heard, x.s.state⟩])
     | _ => none
-  | .wait d =>
-    match x.c.hold with
-    | some t => if x.c.now + d < t + holdInterval cfg then some ({ x with c := clockWait x.c d }, []) else none
-    | none => some ({ x with c := clockWait x.c d }, [])
+  | .wait d => some ({ x with c := clockWait x.c d }, [])
 
 def timedRun (cfg : Cfg) : Timed → List TStep → List Expiry
   | _, [] => []
@@ -1685,6 +1691,98 @@ private theorem hears_rearms (cfg : Cfg) (s : St) (c : Clock) (i : Input) (hc : 
     (cases hold <;> simp at ht hnone <;> grind)
 
 
+/-! ### where `Clock` stops being exact: a reset with two hold-timer ticks outstanding -/
+
+/-- the only arms of `handle_event` that call `hold_timer.reset()` -/
+private theorem arm_resets (ctx : Ctx) (st : State) (k : Kind) (acts : List Act) (ok : Bool)
+    (h : arm ctx st k = .run acts ok) (hm : Act.resetHold ∈ acts) :
+    (st = .openConfirm ∧ k = .keepaliveMsg ∧ acts = [.resetHold, .setState .established]) ∨
+    (st = .established ∧ (k = .keepaliveMsg ∨ k = .updateMsg) ∧ acts = [.resetHold]) := by
+  cases st <;> cases k <;> simp [arm, openTail] at h <;> (repeat' split at h) <;> simp_all <;>
+    (obtain ⟨rfl, _⟩ := h; simp at hm)
+
+private theorem staleExec_no_reset (cfg : Cfg) (o : OpenInfo) : ∀ (acts : List Act) (s : St) (c : Clock),
+    Act.resetHold ∉ acts → staleExec cfg o s c acts = false := by
+  intro acts
+  induction acts with
+  | nil => intro s c _; rfl
+  | cons a rest ih =>
+    intro s c h
+    simp only [List.mem_cons, not_or] at h
+    simp only [staleExec, ih _ _ h.2, Bool.or_false]
+    cases a <;> simp at h ⊢
+
+private theorem holdTwoDue_iff (cfg : Cfg) (c : Clock) :
+    holdTwoDue cfg c = true ↔ ∃ t, c.hold = some t ∧ t + holdInterval cfg ≤ c.now := by
+  unfold holdTwoDue; cases c.hold <;> simp
+
+/-- **What the timed lines refuse** (`Rc.Fsm.staleInput`, used by `timedStep` and by the driver), said without
+the arm table: the input is one that restarts the HoldTimer (`hears`: KEEPALIVE in OpenConfirm / Established,
+UPDATE in Established), the hold timer runs, and its next tick was due a whole hold time ago or more - two of
+its ticks are outstanding (`Rc.Timer.Spec.out2`), the second survives `Timer::reset` as `Spec.stale`.  This is
+the condition c08.rs re-computes from its own bookkeeping (`reset_with_two_ticks`). -/
+theorem staleInput_iff (cfg : Cfg) (s : St) (c : Clock) (i : Input) :
+    staleInput cfg s c i = true ↔
+      hears s.state i = true ∧ s.hold = true ∧ ∃ t, c.hold = some t ∧ t + holdInterval cfg ≤ c.now := by
+  rw [← holdTwoDue_iff]
+  constructor
+  · intro h
+    unfold staleInput at h
+    cases hie : inputEvent cfg s i with
+    | none => simp [hie] at h
+    | some e =>
+      simp only [hie] at h
+      have hmem : Act.resetHold ∈ actsOfEvent cfg s e := by
+        apply Classical.byContradiction; intro hn
+        rw [staleExec_no_reset cfg _ _ s c hn] at h; cases h
+      unfold actsOfEvent at hmem h
+      cases harm : arm (ctxOf cfg s) s.state (kindOf cfg e) with
+      | todo => simp [harm] at hmem
+      | panic => simp [harm] at hmem
+      | run acts ok =>
+        simp only [harm] at hmem h
+        rcases arm_resets _ _ _ _ _ harm hmem with ⟨hst, hk, rfl⟩ | ⟨hst, hk, rfl⟩
+        · have he : e = .keepaliveMsg := by cases e <;> simp [kindOf] at hk ⊢
+          subst he
+          have hh : hears s.state i = true := by
+            cases i <;> simp [inputEvent, openEvent, notifEvent, startEvent] at hie <;> (try split at hie) <;> simp_all [hears]
+          simpa [staleExec, hh] using h
+        · have he : e = .keepaliveMsg ∨ e = .updateMsg := by cases e <;> simp [kindOf] at hk ⊢
+          have hh : hears s.state i = true := by
+            rcases he with rfl | rfl <;>
+            cases i <;> simp [inputEvent, openEvent, notifEvent, startEvent] at hie <;> (try split at hie) <;> simp_all [hears]
+          simpa [staleExec, hh] using h
+  · rintro ⟨hh, hhold, h2⟩
+    rcases s with ⟨st, crt, hold, ka, dop, cnt, conn, neg⟩
+    simp only at hh hhold
+    subst hhold
+    cases st <;> cases i <;> (try (rename_i e; cases e)) <;> simp [hears] at hh <;>
+      simp [staleInput, inputEvent, actsOfEvent, arm, kindOf, staleExec, h2]
+
+/-- the events `tick()` raises for its three timers never reset the hold timer: a `T` step cannot be such a place
+(the driver checks `staleInput` on inputs only) -/
+theorem timer_events_never_reset_hold (cfg : Cfg) (s : St) (c : Clock) (x : Tmr) :
+    Act.resetHold ∉ actsOfEvent cfg s x.event ∧
+      staleExec cfg defaultOpen s c (actsOfEvent cfg s x.event) = false := by
+  have h : Act.resetHold ∉ actsOfEvent cfg s x.event := by
+    intro hm
+    unfold actsOfEvent at hm
+    cases harm : arm (ctxOf cfg s) s.state (kindOf cfg x.event) with
+    | todo => simp [harm] at hm
+    | panic => simp [harm] at hm
+    | run acts ok =>
+      simp only [harm] at hm
+      rcases arm_resets _ _ _ _ _ harm hm with ⟨_, hk, _⟩ | ⟨_, hk, _⟩ <;> cases x <;> simp [Tmr.event, kindOf] at hk
+  exact ⟨h, staleExec_no_reset cfg _ _ s c h⟩
+
+/-- non-vacuity of the refusal: local hold 3 s, established, hold timer armed at 0 s (next tick due at 3 s); at
+6 s the ticks of 3 s and 6 s are outstanding: an UPDATE then is refused, at 5 s it is not -/
+example :
+    let cfg : Cfg := ⟨false, true, true, true, [], 3, [65001]⟩
+    let s : St := ⟨.established, false, true, true, false, 0, true, none⟩
+    staleInput cfg s ⟨6, none, some 3, none⟩ (.msgUpdate 1) = true ∧
+      staleInput cfg s ⟨5, none, some 3, none⟩ (.msgUpdate 1) = false := by decide
+
 private theorem holdInv_step (cfg : Cfg) (x x' : Timed) (st : TStep) (evs : List Expiry) (hI : HoldInv cfg x)
     (h : timedStep cfg x st = some (x', evs)) :
     HoldInv cfg x' ∧ ∀ ex ∈ evs, ex.event = .holdTimerExpires → ex.heard + holdInterval cfg ≤ ex.at_ := by
@@ -1692,6 +1790,8 @@ private theorem holdInv_step (cfg : Cfg) (x x' : Timed) (st : TStep) (evs : List
   cases st with
   | input i =>
     simp only [timedStep] at h
+    split at h
+    · cases h
     cases hh : handleInput cfg x.s i with
     | todo => simp [hh] at h
     | panic => simp [hh] at h
@@ -1773,21 +1873,21 @@ private theorem holdInv_step (cfg : Cfg) (x x' : Timed) (st : TStep) (evs : List
         omega
   | wait d =>
     simp only [timedStep] at h
-    cases hch : x.c.hold with
-    | none =>
-      simp [hch] at h; obtain ⟨rfl, rfl⟩ := h
-      exact ⟨⟨clockOk_wait x.s x.c d hok, by simp [clockWait]; omega, by simp [clockWait, hch]⟩, by simp⟩
-    | some t =>
-      simp [hch] at h
-      obtain ⟨_, rfl, rfl⟩ := h
-      exact ⟨⟨clockOk_wait x.s x.c d hok, by simp [clockWait]; omega, by simpa [clockWait] using hhold⟩, by simp⟩
+    simp at h; obtain ⟨rfl, rfl⟩ := h
+    exact ⟨⟨clockOk_wait x.s x.c d hok, by simp [clockWait]; omega, by simpa [clockWait] using hhold⟩, by simp⟩
 
 /-- **(iii) The hold timer expires only after silence.** In every timed history of a session - inputs handled at
-the current clock, `tick()` letting timers fire, time passing un-polled (within the C20 precondition of the
-hold timer) - that starts with a clock consistent with the session state (e.g. `Clock.ofSt`), whenever
+the current clock, `tick()` letting timers fire, ANY amount of time passing un-polled; the history ends at a reset
+of the hold timer with two of its ticks outstanding (`staleInput_iff`) - that starts with a clock consistent with the session state (e.g. `Clock.ofSt`), whenever
 `tick()` raises HoldTimer_Expires at clock `T`, at least the configured hold time has elapsed since the
 peer was last heard from: the last KEEPALIVE received in OpenConfirm / Established or UPDATE received in
-Established (`hears`; 0 = the start of the history when there was none). -/
+Established (`hears`; 0 = the start of the history when there was none).
+
+Weaker than what c08.rs's hold-timer oracle demands in two respects (both documented as durations outside the
+property): (a) the ghost is NOT moved when an OPEN is accepted (the hold timer is started there): for a session
+that never receives a KEEPALIVE the theorem bounds the expiry by `history start + hold`, the oracle by
+`OPEN accepted + hold`; (b) the theorem speaks of the LOCAL hold time (the interval `Session::new` gives the
+timer), the oracle of the NEGOTIATED one (<= local) read from the implementation's record. -/
 theorem hold_expiry_needs_silence (cfg : Cfg) : ∀ (steps : List TStep) (x : Timed),
     ClockOk x.s x.c → x.heard ≤ x.c.now → (∀ t, x.c.hold = some t → x.heard + holdInterval cfg ≤ t) →
     ∀ ex ∈ timedRun cfg x steps, ex.event = .holdTimerExpires → ex.heard + holdInterval cfg ≤ ex.at_ := by
@@ -1876,22 +1976,168 @@ theorem keepalive_timer_sends_keepalive (cfg : Cfg) (s : St) (c : Clock) (r : St
 
 /-! ### `Clock` and the C20 timer specification
 
-Each of the three `Clock` entries is the `due` field of the abstract timer specification of C20
-(`Rc.Timer.Spec`, Rc/Model/Timer.lean; seconds here, milliseconds there): `start`, `reset` of a running timer
-and taking a tick change it exactly as `startKa/startHold/startDop`, `resetHold` and `tickTimer` change the
-entry.  The `stale` field of the specification has no counterpart in `Clock`: it becomes non-empty only when
-a timer with two un-awaited ticks is reset, which `timedStep`'s `wait` (and the driver, for the `W` lines)
-excludes for the hold timer - the only timer the session resets. -/
+Each of the three `Clock` entries is the `due` field of a state of the abstract timer specification of C20
+(`Rc.Timer.Spec`, Rc/Model/Timer.lean; seconds here, milliseconds there) with nothing stale: `EntrySpec`.  The
+theorems below are about the MODEL's functions: the statements of the arms that touch a timer (`clockAct` /
+`execAct` of `startKa/startHold/startDop`, `resetHold`, `disconnect`, `stopDop`), time passing (`clockWait`) and
+the re-arming `tickTimer` does when it takes a tick (`tickClock`, `tickTimer_clock`) move the entry and the
+running flag exactly as `Spec.call .start / .reset / .stop`, `Spec.step (.advance d)` and `Spec.await` move
+`due` and `stopped`.  `reset` includes its guard (`s.hold`; `reset()` of a stopped timer does nothing in both)
+and says when `Clock` loses track: the specification gets a `stale` tick exactly when
+`s.hold && holdTwoDue cfg c` - the condition of `staleInput_iff`, where `timedStep` and the driver stop.
+NOT proved: that a whole `timedRun` is simulated by three `Spec` runs (the per-operation facts are not chained
+over `clockExec` / `clockInput`; `ClockExact` is shown for `Clock.ofSt` and every single statement, not for
+`tickTimer`); `Clock` stays tied to the code by the `T` / `W` correspondence lines. -/
 
-theorem clock_start_is_timer_spec (a : Rc.Timer.Spec) : (a.call 0 .start).due = dueAt a.now a.i := by
-  simp [Rc.Timer.Spec.call, dueAt]
+/-- the interval `Session::new` gives the timer (hold = the local hold time, keepalive = hold / 3, delay-open 10 s) -/
+def Tmr.interval (cfg : Cfg) : Tmr → Nat
+  | .ka => kaInterval cfg
+  | .hold => holdInterval cfg
+  | .dop => dopInterval
 
-theorem clock_reset_is_timer_spec (a : Rc.Timer.Spec) (t : Nat) (hd : a.due = some t) (hi : a.i ≠ 0) :
-    (a.call 0 .reset).due = dueAt a.now a.i := by
-  simp [Rc.Timer.Spec.call, dueAt, hd, hi]
+/-- the statement of an arm that is `<timer>.start()` -/
+def Tmr.startAct : Tmr → Act
+  | .ka => .startKa
+  | .hold => .startHold
+  | .dop => .startDop
 
-theorem clock_tick_is_timer_spec (a : Rc.Timer.Spec) (t d : Nat) (hd : a.due = some t) (hs : a.stale = none)
-    (hi : a.i ≠ 0) (hlt : t < a.now + d) : (a.await d).1.due = dueAt t a.i ∧ ∃ n, (a.await d).2 = .tick t n := by
-  by_cases h : t ≤ a.now <;> simp [Rc.Timer.Spec.await, dueAt, hd, hs, hi, h, hlt]
+/-- the clock has a next tick for exactly the timers that run with a non-zero interval (`ClockOk` is one half) -/
+def ClockExact (cfg : Cfg) (s : St) (c : Clock) : Prop :=
+  ∀ x, (clockGet c x).isSome = (running s x && decide (Tmr.interval cfg x ≠ 0))
+
+/-- `a` is the C20 specification state the entry of timer `x` stands for: same interval, same clock, `due` = the
+entry, nothing stale, `stopped` = the session's running flag negated (`Timer::is_running`) -/
+def EntrySpec (cfg : Cfg) (s : St) (c : Clock) (x : Tmr) (a : Rc.Timer.Spec) : Prop :=
+  a.i = Tmr.interval cfg x ∧ a.now = c.now ∧ a.due = clockGet c x ∧ a.stale = none ∧ a.stopped = !running s x
+
+/-- `ClockExact` holds for the clock of a session whose timers were started at time 0 … -/
+theorem clockExact_ofSt (cfg : Cfg) (s : St) : ClockExact cfg s (Clock.ofSt cfg s) := by
+  intro x
+  cases x <;> simp [Clock.ofSt, clockGet, running, dueAt, Tmr.interval] <;> grind
+
+/-- … and is kept by every statement of an arm -/
+theorem clockExact_act (cfg : Cfg) (o : OpenInfo) (s : St) (c : Clock) (a : Act) (h : ClockExact cfg s c) :
+    ClockExact cfg (execAct cfg o s a).1 (clockAct cfg s c a) := by
+  have hka := h .ka; have hhold := h .hold; have hdop := h .dop
+  simp only [clockGet, running, Tmr.interval] at hka hhold hdop
+  intro x
+  cases a <;> cases x <;> simp [clockAct, execAct, clockGet, running, dueAt, Tmr.interval] at hka hhold hdop ⊢ <;> grind
+
+/-- `startKa / startHold / startDop` (`clockAct` on the clock, `execAct` on the running flag) = `Spec.call .start` -/
+theorem clock_start_is_timer_spec (cfg : Cfg) (o : OpenInfo) (s : St) (c : Clock) (x : Tmr) (a : Rc.Timer.Spec)
+    (h : EntrySpec cfg s c x a) :
+    EntrySpec cfg (execAct cfg o s (Tmr.startAct x)).1 (clockAct cfg s c (Tmr.startAct x)) x (a.call 0 .start) := by
+  obtain ⟨h1, h2, h3, h4, h5⟩ := h
+  cases x <;> simp [EntrySpec, Tmr.startAct, clockAct, execAct, clockGet, running, Rc.Timer.Spec.call, dueAt, h1, h2, Tmr.interval]
+
+/-- `disconnect` (keepalive and hold timers) and `stopDop` = `Spec.call .stop` -/
+theorem clock_stop_is_timer_spec (cfg : Cfg) (o : OpenInfo) (s : St) (c : Clock) (x : Tmr) (r : Reason) (a : Rc.Timer.Spec)
+    (h : EntrySpec cfg s c x a) :
+    let act : Act := match x with | .dop => .stopDop | _ => .disconnect r
+    EntrySpec cfg (execAct cfg o s act).1 (clockAct cfg s c act) x (a.call 0 .stop) := by
+  obtain ⟨h1, h2, h3, h4, h5⟩ := h
+  cases x <;> simp [EntrySpec, clockAct, execAct, clockGet, running, Rc.Timer.Spec.call, h1, h2, Tmr.interval]
+
+/-- `resetHold`, guard included = `Spec.call .reset`; the specification keeps a stale tick exactly when the hold timer
+runs with two ticks outstanding (then, and only then, `EntrySpec` is lost) -/
+theorem clock_reset_is_timer_spec (cfg : Cfg) (o : OpenInfo) (s : St) (c : Clock) (a : Rc.Timer.Spec)
+    (h : EntrySpec cfg s c .hold a) (hex : ClockExact cfg s c) :
+    let a' := a.call 0 .reset
+    let c' := clockAct cfg s c .resetHold
+    a'.i = holdInterval cfg ∧ a'.now = c'.now ∧ a'.due = c'.hold ∧ a'.stopped = !(execAct cfg o s .resetHold).1.hold ∧
+      a'.stale.isSome = (s.hold && holdTwoDue cfg c) := by
+  obtain ⟨h1, h2, h3, h4, h5⟩ := h
+  have hh := hex .hold
+  simp only [clockGet, running, Tmr.interval] at h1 h3 h5 hh
+  cases hd : c.hold with
+  | none =>
+    rw [hd] at h3 hh
+    cases hs : s.hold <;> simp [hs] at hh <;>
+      simp [Rc.Timer.Spec.call, clockAct, execAct, h1, h2, h3, h4, h5, hd, hs, holdTwoDue, dueAt]
+    have := of_decide_eq_false hh; omega
+  | some t =>
+    rw [hd] at h3 hh
+    simp at hh
+    have hi : ¬ holdInterval cfg = 0 := of_decide_eq_true hh.2
+    simp [Rc.Timer.Spec.call, Rc.Timer.Spec.out2, clockAct, execAct, h1, h2, h3, h4, h5, hd, hh.1, holdTwoDue, dueAt, hi]
+    by_cases h6 : t + holdInterval cfg ≤ c.now
+    · have : t ≤ c.now := by omega
+      simp [h6, this]
+    · simp [h6]; split <;> rfl
+
+/-- the clock after `tick()` took the tick due at `t` of timer `x` (before the arm of its event runs): the paused clock is
+at the tick or past it, the timer's next tick one interval after the one taken -/
+def tickClock (cfg : Cfg) (c : Clock) (x : Tmr) (t : Nat) : Clock :=
+  match x with
+  | .ka => { c with now := max c.now t, ka := dueAt t (kaInterval cfg) }
+  | .hold => { c with now := max c.now t, hold := dueAt t (holdInterval cfg) }
+  | .dop => { c with now := max c.now t, dop := dueAt t dopInterval }
+
+/-- taking a tick = `Spec.await` (any patience `d` that reaches the tick): same re-arming, and the observation is the
+tick due at `t`, handed out at `max now t` -/
+theorem clock_tick_is_timer_spec (cfg : Cfg) (s : St) (c : Clock) (x : Tmr) (t d : Nat) (a : Rc.Timer.Spec)
+    (h : EntrySpec cfg s c x a) (hex : ClockExact cfg s c) (ht : clockGet c x = some t) (hlt : t < c.now + d) :
+    EntrySpec cfg s (tickClock cfg c x t) x (a.await d).1 ∧ (a.await d).2 = .tick t (max c.now t) := by
+  obtain ⟨h1, h2, h3, h4, h5⟩ := h
+  have hh := hex x
+  rw [ht] at hh h3
+  simp at hh
+  have hi : ¬ Tmr.interval cfg x = 0 := hh.2
+  by_cases hle : t ≤ c.now
+  · have hm : max c.now t = c.now := by omega
+    cases x <;> simp [Tmr.interval] at hi <;>
+      simp [EntrySpec, tickClock, Rc.Timer.Spec.await, clockGet, running, dueAt, h1, h2, h3, h4, h5, hle, hm, hi, Tmr.interval]
+  · have hm : max c.now t = t := by omega
+    cases x <;> simp [Tmr.interval] at hi <;>
+      simp [EntrySpec, tickClock, Rc.Timer.Spec.await, clockGet, running, dueAt, h1, h2, h3, h4, h5, hle, hlt, hm, hi, Tmr.interval]
+
+
+/-- non-vacuity: an established session with local hold 10 s whose timers were started at 0 s; its hold entry is the
+specification state of a 10 s timer started at 0 -/
+example :
+    let cfg : Cfg := ⟨false, true, true, true, [], 10, [65001]⟩
+    let s : St := ⟨.established, false, true, true, false, 0, true, none⟩
+    EntrySpec cfg s (Clock.ofSt cfg s) .hold ((Rc.Timer.Spec.init 10).call 0 .start) ∧
+      (Clock.ofSt cfg s).hold = some 10 := by
+  simp [EntrySpec, Clock.ofSt, Rc.Timer.Spec.init, Rc.Timer.Spec.call, Tmr.interval, holdInterval, clockGet, running, dueAt]
+
+/-- time passing un-polled is the specification's `advance` -/
+theorem clock_wait_is_timer_spec (cfg : Cfg) (s : St) (c : Clock) (x : Tmr) (d : Nat) (a : Rc.Timer.Spec)
+    (h : EntrySpec cfg s c x a) : EntrySpec cfg s (clockWait c d) x (a.step (.advance d)).1 := by
+  obtain ⟨h1, h2, h3, h4, h5⟩ := h
+  cases x <;> simp [EntrySpec, clockWait, Rc.Timer.Spec.step, clockGet, h1, h2, h3, h4, h5]
+
+/-- `tickTimer` re-arms the timer whose tick it takes with `tickClock`, then runs the arm of its event -/
+theorem tickTimer_clock (cfg : Cfg) (s : St) (c : Clock) (e : Event) (r : StepResult) (c' : Clock)
+    (h : tickTimer cfg s c = .fired e r c') :
+    ∃ x t, e = x.event ∧ clockGet c x = some t ∧
+      c' = clockExec cfg defaultOpen s (tickClock cfg c x t) (actsOfEvent cfg s e) := by
+  obtain ⟨y, t, he, hy, _, _, _⟩ := tickTimer_fired cfg s c e r c' h
+  refine ⟨y, t, he, hy, ?_⟩
+  rw [tickTimer_def] at h
+  cases hcs : cands c with
+  | nil => rw [hcs] at h; simp at h
+  | cons p rest =>
+    obtain ⟨t0, e0⟩ := p
+    rw [hcs] at h; simp only at h; rw [← hcs] at h
+    have hm := foldMin rest (t0, e0)
+    simp only at hm
+    generalize hb : rest.foldl (fun (b : Nat × Event) z => if z.1 < b.1 then z else b) (t0, e0) = best at hm h
+    obtain ⟨bt, be⟩ := best
+    split at h
+    · cases h
+    · injection h with h1 h2 h3
+      simp only at h1 h3
+      subst h1
+      have hbmem : (bt, be) ∈ cands c := by
+        rw [hcs]; rcases hm.1 with h | h
+        · rw [h]; simp
+        · exact List.mem_cons_of_mem _ h
+      obtain ⟨z, hz1, hz2⟩ := (mem_cands c bt _).mp hbmem
+      have hzy : z = y := by rw [he] at hz1; cases z <;> cases y <;> simp [Tmr.event] at hz1 <;> rfl
+      subst hzy
+      rw [hy] at hz2; injection hz2 with hz2; subst hz2
+      rw [← h3, he]
+      cases z <;> simp [Tmr.event, tickClock]
 
 end Rc.Thm.C08
